@@ -235,6 +235,26 @@ def cell_typelab(cell):
         U = [x for x in U if lab.within_bounds(x)]
         G = [x for x in U if x[0] == 'c' and x[2]]
         bt = [lab.bterm[k] for k in ('number', 'integer', 'string', 'double')]
+        # top-level variables: target and/or pattern is a (bounded) type variable
+        bpool = [None] + bt[:3] + [x for x in U if x[0] == 'c'][:4]
+        for b1 in bpool:
+            for b2 in bpool:
+                tv1, tv2 = ('v', 'Q', INV, b1), ('v', 'P', INV, b2)
+                grounds = [tv1] + (rng.sample(U, min(3, len(U))) if U else [])
+                for target in grounds:
+                    try:
+                        rt, rp = lab.real(target), lab.real(tv2)
+                    except Exception:
+                        continue
+                    out.ev('pairs:variable-pattern')
+                    core.records = []
+                    try:
+                        tu.unify_types(rt, rp, lab.f)
+                    except Exception as e:
+                        out.skip('unify-raised:' + type(e).__name__)
+                        continue
+                    for rec in core.records:
+                        judge(rec, T, out, {'spec': spec, 'kind': 'variable-pattern'})
         for it in range(cell.get('iters', 150)):
             # pattern: a generic class applied to variables / nested patterns / ground types
             nvars = rng.randint(1, 3)
